@@ -754,6 +754,13 @@ impl Recv {
                 stream.id,
             );
             self.release_connection_capacity(sz, &mut None);
+
+            // The frame may still have closed the receive half: no further
+            // PUSH_PROMISE can arrive, wake a task waiting for one.
+            if stream.state.is_recv_end_stream() {
+                stream.notify_push();
+            }
+
             return Ok(());
         }
 
